@@ -130,7 +130,56 @@ def unary_unit(U):
     U.assume_note("contract of DataFieldBase.__init__: `data=` is copied into a newly allocated padded array; `with_ghost_cells=True` adopts the given array")
 
 
-UNITS = [(f"{'inplace' if ip else 'binary'}_operation[other={ok}]", binary_unit(ok, ip)) for ip in (False, True) for ok in ("scalar", "field")] + [("unary_operation", unary_unit)]
+def pickle_unit(U):
+    """pickle / copy.deepcopy of a field: the real __getstate__ (and __setstate__ if the class has one) with the
+    pickle protocol in between -- every ndarray of the state is restored as an independent array of equal content
+    (NumPy does not preserve views across pickling), a new object gets the state through __setstate__ or, without
+    one, through __dict__.update.  Afterwards `data` must again be a live view of the padded array."""
+    def body(it):
+        it.ctx.assume(N >= 1)
+        fcls = it.load_module("pde.fields.base").get("FieldBase")
+        grid = Instance(None, {"num_axes": 1, "_shape_full": (N + 2,), "_idx_valid": (slice(1, -1),), "__eq__": None}, name="grid")
+        full = sym_array("padded", (N + 2,))
+        f = Instance(fcls, {"_grid": grid, "__data_full": full, "_data_valid": full.index(slice(1, -1)), "label": "lbl",
+                            "_cache_methods": {"make_interpolator": {"key": Opaque("helper bound to the old array")}}})
+        state = it.call(it.getattr(f, "__getstate__"), [], {})
+        restored = {k: (v.copy() if isinstance(v, NDArr) else v) for k, v in state.items()}
+        g = Instance(fcls, {})
+        m, _ = fcls.lookup("__setstate__")
+        if m is not None:
+            it.call(it.getattr(g, "__setstate__"), [restored], {})
+        else:
+            g.attrs.update(restored)
+        before = g.attrs["__data_full"].frozen()
+        w = z3.Real("written_through_data")
+        g.attrs["_data_valid"].assign(slice(None), w)
+        return f, g, full, before, w
+
+    for p, res in enumerate(explore_paths(U, body)):
+        P = prem_of(res.ctx)
+        nm = f"pickle.path{p}"
+        if res.outcome != "return":
+            U.prove(f"{nm}.returns_normally", P, z3.BoolVal(False), info={"exc": str(res.exc)})
+            continue
+        f, g, full, before, w = res.value
+        gf, gv = g.attrs.get("__data_full"), g.attrs.get("_data_valid")
+        ok = isinstance(gf, NDArr) and isinstance(gv, NDArr)
+        U.prove(f"{nm}.restored_object_has_its_arrays", P, z3.BoolVal(ok))
+        if not ok:
+            continue
+        j = z3.Int("j")
+        U.prove(f"{nm}.restored_data_is_a_view_of_the_restored_padded_array", P, z3.BoolVal(gv.buf is gf.buf),
+                info={"witness": "a write through .data after unpickling must reach the array the operators read", "replay_payload": {"pickle": True}})
+        U.prove(f"{nm}.a_write_through_data_reaches_the_valid_cells_of_the_padded_array", P + [j >= 1, j <= N], to_z3(gf.read((j,))) == w)
+        U.prove(f"{nm}.ghost_cells_keep_the_pickled_values", P + [z3.Or(j == 0, j == N + 1)], to_z3(gf.read((j,))) == to_z3(full.read((j,))))
+        U.prove(f"{nm}.contents_equal_the_source_before_the_write", P + [j >= 0, j <= N + 1], to_z3(before((j,))) == to_z3(full.read((j,))))
+        U.prove(f"{nm}.no_memory_shared_with_the_source", P, z3.BoolVal(gf.buf is not full.buf and gv.buf is not full.buf))
+        U.prove(f"{nm}.method_cache_is_not_carried_over", P, z3.BoolVal(not g.attrs.get("_cache_methods")))
+    U.assume_note("pickle / deepcopy restore every ndarray of the state as an independent array of equal content (views are not preserved) and hand the state to __setstate__ or __dict__.update")
+
+
+UNITS = [("pickle_roundtrip_of_a_field", pickle_unit)]
+UNITS += [(f"{'inplace' if ip else 'binary'}_operation[other={ok}]", binary_unit(ok, ip)) for ip in (False, True) for ok in ("scalar", "field")] + [("unary_operation", unary_unit)]
 
 
 def bounded(tier, seed):
@@ -145,5 +194,5 @@ def bounded(tier, seed):
 
 TRUSTED = ["NumPy view/copy table of pdv/arrays.py (basic indexing = view, arithmetic / np.array = fresh buffer)", "contract of DataFieldBase.__init__ and of field.copy() (fresh padded buffer)"]
 ASSUMPTIONS = ["'all sequences of operations' is reduced to each operation preserving the sharing/isolation invariants"]
-NOT_COVERED = ["FieldCollection construction / re-linking / slicing / append, component views of vector and tensor fields, storages: bounded native check only",
+NOT_COVERED = ["FieldCollection construction / re-linking / slicing / append (np.array stacking, reshape(-1, ..) of tensor data), component views of vector and tensor fields, storages: bounded native check only",
                "dtypes other than float64/complex128 (component views of other dtypes are documented copies)"]
